@@ -1280,7 +1280,18 @@ def cli_run(case, scratch, tag):
     d.mkdir()
     (d / "in.agp").write_text(agp_text(case["input"]))
     (d / "ptx.agp").write_text(agp_text(case["ptx"], header=["DESCRIPTION: generated", f"HiC MAP RESOLUTION: {case['bpt']} bp/texel"]))
-    res = CliRunner().invoke(cli, ["-a", str(d / "in.agp"), "-p", str(d / "ptx.agp"), "-o", str(d / "xx.1.agp")])
+    import logging
+    logging.disable(logging.NOTSET)      # the harness silences logging elsewhere; the log file is an output here
+    try:
+        res = CliRunner().invoke(cli, ["-a", str(d / "in.agp"), "-p", str(d / "ptx.agp"), "-o", str(d / "xx.1.agp")])
+    finally:
+        logging.disable(logging.CRITICAL)
+        for h in list(logging.getLogger().handlers):
+            try:
+                h.close()
+            except Exception:
+                pass
+            logging.getLogger().removeHandler(h)
     files = {p.name: p for p in d.iterdir() if p.name not in ("in.agp", "ptx.agp")}
     info = None
     if (d / "xx.1.info.yaml").exists():
@@ -1432,8 +1443,10 @@ def run_cli_cases(ctx, stream, cases, classify=None, only=None, names_model=Fals
                 mrep = [[x[0], x[1], x[2], x[3], (x[4] if x[4] not in (None, "") else None), x[5], x[6]] for x in m["report"]]
                 real_files = sorted(run["files"])
                 mplan = {"ok": sorted(m["plan"]["ok"])} if "ok" in m["plan"] else m["plan"]
-                out.compare(stream + ":info+report+files", inp, {"info": real_info, "report": rep, "files": {"ok": real_files}},
-                            {"info": m["info"], "report": mrep, "files": mplan}, ("cliplan", len(rep), len(real_files)))
+                logp = run["files"].get("xx.1.log")
+                log_line = next((l for l in (logp.read_text().splitlines() if logp is not None else []) if l.startswith("Curation made")), None)
+                out.compare(stream + ":info+report+files", inp, {"info": real_info, "report": rep, "files": {"ok": real_files}, "log_line": log_line},
+                            {"info": m["info"], "report": mrep, "files": mplan, "log_line": m["log_line"]}, ("cliplan", len(rep), len(real_files)))
             errs = cli_oracles(c, run, real)
             if only:
                 errs = [e for e in errs if any(w in e for w in only)]
